@@ -89,6 +89,13 @@ class RichGen:
                 self.row += 12
             body.append(("place", lamp, "small-lamp", ("ref", it), ycoord, None))
             cond = self.cmp_expr(extra) if r.random() < 0.7 else self.sig_expr(2, extra)
+            if getattr(self, "local_state", False) and r.random() < 0.35:
+                # a memory cell declared in the body: every iteration has a cell of its own
+                m = "m" + next(self.names)
+                sg = r.choice(SIGNALS[:5])
+                body.append(("mem", m, sg))
+                body.append(("write", m, ("bin", r.choice(["+", "-"]), ("read", m), ("bin", "+", ("ref", it), ("int", 1))), None))
+                cond = ("cmp", r.choice([">", "<", "=="]), ("read", m), ("int", r.choice([0, 5, 10])))
             body.append(("enable", lamp, cond))
         return ("for", it, itr, body)
 
@@ -106,6 +113,25 @@ class RichGen:
             body.append(("sig", t, self.sig_expr(2)))
             self.scope.append((t, "sig", None))
         ret = self.sig_expr(2)
+        if getattr(self, "local_state", False):
+            x = ("ref", params[0][1])
+            if r.random() < 0.35:
+                # a memory cell declared in the body: every call site gets a cell of its own
+                m = "m" + next(self.names)
+                sg = r.choice(SIGNALS[:5])
+                body.append(("mem", m, sg))
+                if r.random() < 0.6:
+                    body.append(("write", m, ("bin", r.choice(["+", "-", "XOR"]), ("read", m), x), None))
+                else:
+                    body.append(("write", m, ("proj", x, sg), ("cmp", ">", x, ("int", r.choice([0, 3, 10])))))
+                ret = ("read", m) if r.random() < 0.5 else ("bin", "+", ("read", m), ("int", r.choice([1, 2, 5])))
+            ints = [n for k, n in params if k == "int"]
+            if ints and r.random() < 0.4:
+                # an entity placed by the body at a position given by an int parameter
+                l = next(self.names)
+                body.append(("place", l, "small-lamp", ("ref", ints[0]), ("int", 8 + 2 * self.row), None))
+                self.row += 1
+                body.append(("enable", l, ("cmp", r.choice([">", "<", "=="]), x, ("int", r.choice([0, 2, 10])))))
         self.scope = saved
         self.funcs.append((fname, params))
         return ("func", fname, params, body, ret)
@@ -150,9 +176,10 @@ class RichGen:
         return stmts
 
 
-def gen_rich(seed, **kw):
+def gen_rich(seed, local_state=False, **kw):
     for k in range(60):
         g = RichGen(random.Random(seed * 60 + k))
+        g.local_state = local_state
         st = g.program(**kw)
         try:
             el = fr.elaborate(st)
